@@ -55,7 +55,8 @@ def gen_case(rnd):
     # some objects start from an explicit state, the others from the default derived from Python's global generator
     for o in range(nobj):
         if r.random() < 0.5:
-            ops.append(["mk", r.randint(0, 50)])
+            # (a third of the explicit states are made from a number and a name: RandState.mkFromSeed(n, "name"))
+            ops.append(["mk", r.randint(0, 50)] + ([r.choice(["abc", "core0", "x"])] if r.random() < 0.35 else []))
             ops.append(["set", o, nh])
             nh += 1
     desc = lambda: r.choice([None, None, 0, 1])
@@ -114,6 +115,9 @@ def op_lit(op):
     if k == "set":
         return "(OSet %d%%nat %d%%nat)" % (op[1], op[2])
     if k == "mk":
+        if len(op) > 2:
+            # a (number, name) pair is a seed of its own kind: equal pairs are equal seeds, nothing else is
+            return "(OMk %s)" % cz(2 * (1000 + 10 * op[1] + ["abc", "core0", "x"].index(op[2])))
         return "(OMk %s)" % cz(2 * op[1])          # explicit seeds are the even numbers of the symbolic instance
     if k == "drawh":
         return "(ODrawH %d%%nat)" % op[1]
